@@ -98,6 +98,36 @@ pub fn transcript(frames: &[Frame], origin: &str) -> Vec<(String, &'static str, 
     out
 }
 
+/// All DHT frames of a segment as events for the wire-level acceptor (Trace_Wire.tla).
+pub fn frame_events(c: &Cluster, names: &mut Names) -> Vec<Value> {
+    let mut out = vec![json!({"ev":"Reset"})];
+    for f in c.hub.frames_since(0) {
+        let Some(m) = &f.dht else { continue };
+        let mtype = match m.message_type {
+            DhtMessageType::Request => "Request",
+            DhtMessageType::Response => "Response",
+            DhtMessageType::Broadcast => "Broadcast",
+            DhtMessageType::Error => "Error",
+        };
+        let result = match &m.result {
+            Some(DhtNetworkResult::PutSuccess { .. }) => "PutSuccess",
+            Some(DhtNetworkResult::GetSuccess { .. }) => "GetSuccess",
+            Some(DhtNetworkResult::GetNotFound { .. }) => "GetNotFound",
+            Some(DhtNetworkResult::NodesFound { .. }) => "NodesFound",
+            Some(DhtNetworkResult::ValueFound { .. }) => "ValueFound",
+            Some(DhtNetworkResult::PongReceived { .. }) => "PongReceived",
+            Some(DhtNetworkResult::JoinSuccess { .. }) => "JoinSuccess",
+            Some(DhtNetworkResult::LeaveSuccess) => "LeaveSuccess",
+            Some(DhtNetworkResult::Error { .. }) => "Error",
+            None => "none",
+        };
+        let real = c.reals.iter().any(|r| r.id == f.from);
+        out.push(json!({"ev":"Frame","from":names.id(&f.from),"to":names.id(&f.to),"mtype":mtype,"op":op_name(&m.payload),
+                        "id":m.message_id,"result":result,"fate":f.fate,"real":real}));
+    }
+    out
+}
+
 /// Lying endpoints for a cluster: replies naming unknown ids, the requester, themselves, duplicates, real ids.
 pub async fn add_liars(c: &Cluster, rng: &mut impl Rng, invented: &mut Vec<String>) {
     let n = c.reals.len();
@@ -153,6 +183,7 @@ pub fn drive(a: &Args) -> i32 {
     let lookups = a.num("lookups", 6);
     let max_nodes = a.num("max_nodes", 12) as usize;
     let mut t = Trace::create(&out);
+    let mut frames_trace = a.0.get("frames").map(|p| Trace::create(p));
     let mut rng = common::rng(1);
     for seg in 0..segments {
         let rt = net::paused_rt();
@@ -268,12 +299,20 @@ pub fn drive(a: &Args) -> i32 {
                     events.push(json!({"ev":"Reply","x":r["x"],"r":r["r"],"known":r["known"],"nodes":r["nodes"],"rank":rank,"cap":8}));
                 }
             }
+            if let Some(ft) = frames_trace.as_mut() {
+                for e in frame_events(&c, &mut names) {
+                    ft.ev(e);
+                }
+            }
             c.shutdown().await;
         });
         drop(rt);
         for e in events {
             t.ev(e);
         }
+    }
+    if let Some(ft) = frames_trace {
+        ft.finish();
     }
     let n = t.finish();
     eprintln!("c01 drive: {n} events");
